@@ -9,7 +9,8 @@ from pyvc.vc import RaiseEx
 
 ASSUMPTIONS = [
     "alpha-renaming lemma (math): a bijective, space and spin preserving renaming of the contracted indices of a term that fixes its target indices does not change its value",
-    "find_compatible_terms (assumed contract, not verified): the keys of the result and the keys of all inner dicts partition range(len(terms)); every inner value is such a renaming that maps the matched term onto the key term (bounded stand-ins simplify.value and simplify.merges)",
+    "find_compatible_terms.compare_terms (soundness under contract): sympy - a difference of two products that is not an Add is a single product or zero, so a substitution that passes the acceptance test makes the terms multiples of each other; the candidate enumeration (index patterns, target filter, itertools.product) runs on opaque values - completeness (that alpha-equivalent terms are found) only in the bounded stand-ins; order_substitutions by its C08 contract",
+    "find_compatible_terms (grouping loop: assumed contract, not verified): the keys of the result and the keys of all inner dicts partition range(len(terms)); every inner value is such a renaming that maps the matched term onto the key term (bounded stand-ins simplify.value and simplify.merges)",
     "sympy subs applies an ordered substitution list left to right; Expr.expand and Add preserve the value",
 ]
 TRUSTED = ["alpha-renaming lemma (math)"]
@@ -201,3 +202,192 @@ def partition_lemma():
     term from the unmatched rest into a group keeps the grand total"""
     rest, grp, t = z3.Reals("rest group t")
     return [("moving-a-term-keeps-the-total", (rest - t) + (grp + t) == rest + grp)]
+
+
+# --- find_compatible_terms.compare_terms: a returned substitution has passed the final test -----------
+# Soundness only: whatever candidates the index pattern matching produces (executed on opaque values),
+# a substitution is returned only in its ORDERED form (order_substitutions, C08), only if it does not
+# annihilate the other term, and only if  term - other_term.subs(sub)  is not a sum - the acceptance
+# test that makes the two terms multiples of each other (sympy: a difference of two products that is
+# not an Add is a single product or zero).
+CTK = "adcgen.simplify:find_compatible_terms.compare_terms"
+CandSort = z3.DeclareSort("CandidateSubstitution")
+CAND_AT = z3.Function("candidate_substitution", z3.IntSort(), CandSort)
+ANNIHILATES = z3.Function("other_term_vanishes_under", CandSort, z3.BoolSort())
+STAYS_SUM = z3.Function("difference_is_a_sum_under", CandSort, z3.BoolSort())
+
+
+def _nat(vc, name):
+    n = vc.fresh_int(name)
+    vc.assume(n >= 0)
+    return n
+
+
+def _ct_install(vc):
+    from pyvc.builtins import SymIter
+    from spec.exprval import ZERO
+    C.EXTERNALS["sympy.S.Zero"] = ZERO
+    # pattern dictionaries {space: {index: pattern}}
+    C.STRUCT_METHODS[("PatternMap", "items")] = lambda ip, o, a, k: Struct("PatternItems")
+    C.STRUCT_SYMITER["PatternItems"] = lambda ip, o: SymIter(
+        "spaces", o, Sym(_nat(ip.vc, "n_spaces")), lambda ip_, k: (Struct("SpaceKey"), Struct("IdxPattern")))
+    C.STRUCT_SUBSCRIPT["PatternMap"] = lambda ip, o, k: Struct("IdxPattern")
+    C.STRUCT_METHODS[("IdxPattern", "items")] = lambda ip, o, a, k: Struct("IdxPatternItems")
+    C.STRUCT_METHODS[("IdxPattern", "keys")] = lambda ip, o, a, k: Struct("KeysView")
+    C.STRUCT_SYMITER["IdxPatternItems"] = lambda ip, o: SymIter(
+        "indices", o, Sym(_nat(ip.vc, "n_indices")), lambda ip_, k: (Struct("IdxTok2"), Struct("PatTok")))
+    C.STRUCT_CONTAINS["TargetTuple"] = lambda ip, o, x: ip.vc.fresh_bool("is_target")
+    C.STRUCT_IS["IdxTok2"] = lambda ip, a, b: ip.vc.fresh_bool("same_index") if a is not b else True
+    C.STRUCT_EQ["PatTok"] = lambda ip, a, b: ip.vc.fresh_bool("same_pattern")
+    C.STRUCT_EQ["KeysView"] = lambda ip, a, b: ip.vc.fresh_bool("same_keys")
+    # candidate lists (opaque)
+    for cls in ("IdxCands", "SubCands"):
+        C.STRUCT_METHODS[(cls, "append")] = lambda ip, o, a, k: None
+        C.STRUCT_METHODS[(cls, "extend")] = lambda ip, o, a, k: None
+        C.STRUCT_TRUTH[cls] = lambda ip, v: ip.vc.fresh_bool("non_empty")
+    C.STRUCT_SYMITER["ProductV"] = lambda ip, o: SymIter(
+        "product", o, Sym(_nat(ip.vc, "n_pairs")), lambda ip_, k: (Struct("CandDict"), Struct("IdxTok2")))
+    C.EXTERNALS["itertools.product"] = lambda ip, a, k: Struct("ProductV")
+    C.STRUCT_CONTAINS["CandDict"] = lambda ip, o, x: ip.vc.fresh_bool("already_mapped")
+    C.STRUCT_METHODS[("CandDict", "copy")] = lambda ip, o, a, k: Struct("CandDict")
+    C.STRUCT_METHODS[("CandDict", "keys")] = lambda ip, o, a, k: Struct("KeysView")
+    C.STRUCT_STORE["CandDict"] = lambda ip, o, k, v: None
+    # the final test
+    C.STRUCT_SYMITER["SubCands"] = lambda ip, o: SymIter(
+        "candidates", o, Sym(_nat(ip.vc, "n_candidates")), lambda ip_, k: Struct("CandSub", id=CAND_AT(term(k))))
+    for f in ("sympy",):
+        C.STRUCT_ATTR[("TermArg2", f)] = lambda ip, o: o.f["sympy"]
+
+    def subs(ip, o, a, k):
+        s = a[0]
+        if not (o.f["who"] == "other" and isinstance(s, Struct) and s.cls == "OrderedSub"):
+            raise Unsupported("subs of something else than the other term with an ordered substitution")
+        return Struct("TermSym", who="mapped", cand=s.f["cand"])
+    C.STRUCT_METHODS[("TermSym", "subs")] = subs
+
+    def is_(ip, a, b):
+        x, o = (a, b) if isinstance(a, Struct) and a.cls == "TermSym" else (b, a)
+        if isinstance(o, Struct) and o.f.get("singleton") == "Zero":
+            if x.f["who"] == "mapped":
+                return Sym(ANNIHILATES(x.f["cand"]))
+            return Sym(ip.vc.ghost["_other_is_zero"]) if x.f["who"] == "other" else Sym(ip.vc.fresh_bool("term_is_zero"))
+        return a is b
+    C.STRUCT_IS["TermSym"] = is_
+
+    def arith(ip, opn, a, b):
+        if opn == "Sub" and isinstance(a, Struct) and a.cls == "TermSym" and a.f["who"] == "term" \
+                and isinstance(b, Struct) and b.cls == "TermSym" and b.f["who"] == "mapped":
+            return Struct("DiffV", cand=b.f["cand"])
+        raise Unsupported("other arithmetic on the abstract terms")
+    C.STRUCT_ARITH["TermSym"] = arith
+    C.STRUCT_ISINSTANCE["DiffV"] = lambda ip, v, cls: Sym(STAYS_SUM(v.f["cand"]))
+
+
+class _CtLoop(LoopContract):
+    """candidate enumeration: everything it writes is opaque"""
+    names = ()
+
+    def havoc(self, vc, frame, k, seq):
+        for nm, cls in self.names:
+            if cls is None:
+                frame.locals.pop(nm, None)
+            else:
+                frame[nm] = Struct(cls)
+
+    def invariant(self, vc, frame, k, seq):
+        for nm, cls in self.names:
+            if cls is not None and isinstance(frame.locals.get(nm), PList):
+                frame[nm] = Struct(cls)
+        return []
+
+
+class _CtSpaceLoop(_CtLoop):
+    header = "pattern.items()"
+    names = (("sub_list", "SubCands"), ("ov", None), ("idx_pattern", None), ("other_idx_pattern", None),
+             ("ov_sub_list", None), ("idx", None), ("pat", None), ("is_target", None), ("matching_idx", None),
+             ("other_idx", None), ("other_pat", None), ("other_is_target", None), ("new_ov_sub_list", None),
+             ("sub", None), ("extended_sub", None))
+    modifies = tuple(n for n, _c in names)
+
+
+class _CtIdxLoop(_CtLoop):
+    header = "idx_pattern.items()"
+    names = (("ov_sub_list", "SubCands"), ("idx", None), ("pat", None), ("is_target", None), ("matching_idx", None),
+             ("other_idx", None), ("other_pat", None), ("other_is_target", None), ("new_ov_sub_list", None),
+             ("sub", None), ("extended_sub", None))
+    modifies = tuple(n for n, _c in names)
+
+
+class _CtOtherLoop(_CtLoop):
+    header = "other_idx_pattern.items()"
+    names = (("matching_idx", "IdxCands"), ("other_idx", None), ("other_pat", None), ("other_is_target", None))
+    modifies = tuple(n for n, _c in names)
+
+
+class _CtProductLoop(_CtLoop):
+    header = "product(ov_sub_list, matching_idx)"
+    names = (("new_ov_sub_list", "SubCands"), ("sub", None), ("other_idx", None), ("extended_sub", None))
+    modifies = tuple(n for n, _c in names)
+
+
+class _CtTestLoop(LoopContract):
+    header = "sub_list"
+    modifies = ("sub", "sub_other_term")
+
+    def iter_spec(self, vc, frame, seq):
+        return [("runs-over-the-candidate-substitutions", isinstance(seq.obj, Struct) and seq.obj.cls == "SubCands")]
+
+    def havoc(self, vc, frame, k, seq):
+        for nm in ("sub", "sub_other_term"):
+            frame.locals.pop(nm, None)
+
+
+class _OrderSubsMarker(Contract):
+    key = "adcgen.indices:order_substitutions"
+    props = []
+    assumed = True
+    note = "C08 contract: the ordered list applies the substitution simultaneously"
+
+    def apply(self, vc, a):
+        s = a["subsdict"] if "subsdict" in a else list(a.values())[0]
+        if not (isinstance(s, Struct) and s.cls == "CandSub"):
+            raise Unsupported("order_substitutions of something else than a candidate")
+        return Struct("OrderedSub", cand=s.f["id"])
+
+
+if _OrderSubsMarker.key not in C.REGISTRY:
+    register(_OrderSubsMarker)
+
+
+@register
+class CompareTerms(Contract):
+    key = CTK
+    props = ["C07"]
+    loops = {0: _CtSpaceLoop(), 1: _CtIdxLoop(), 2: _CtOtherLoop(), 3: _CtProductLoop(), 4: _CtTestLoop()}
+    comprehensions = {"{s: idx} for s in matching_idx": lambda ip, frame, node: Struct("SubCands"),
+                      "sub for sub in ov_sub_list if": lambda ip, frame, node: Struct("SubCands"),
+                      "other_sp_sub | sub for": lambda ip, frame, node: Struct("SubCands")}
+
+    def setup(self, vc):
+        _ct_install(vc)
+        vc.ghost["_other_is_zero"] = vc.fresh_bool("other_term_is_zero")
+        return {"pattern": Struct("PatternMap"), "other_pattern": Struct("PatternMap"),
+                "target": Struct("TargetTuple"),
+                "term": Struct("TermArg2", sympy=Struct("TermSym", who="term")),
+                "other_term": Struct("TermArg2", sympy=Struct("TermSym", who="other"))}
+
+    def closure(self, vc, a):
+        from pyvc.values import ExtRef
+        return {"product": ExtRef("itertools.product"), "combinations": ExtRef("itertools.combinations")}
+
+    def post(self, vc, a, result):
+        if result is None:
+            return []
+        ok = isinstance(result, Struct) and result.cls == "OrderedSub"
+        if not ok:
+            return [("a-substitution-is-returned-in-its-ordered-form", False)]
+        c = result.f["cand"]
+        return [("a-substitution-is-returned-in-its-ordered-form", True),
+                ("term-minus-the-mapped-other-term-is-not-a-sum", z3.Not(STAYS_SUM(c))),
+                ("the-substitution-does-not-annihilate-a-non-vanishing-other-term",
+                 z3.Or(z3.Not(ANNIHILATES(c)), vc.ghost["_other_is_zero"]))]
